@@ -53,6 +53,13 @@ def main(argv=None) -> int:
         code = finish(rep, idx)
     except index_mod.AnalysisError as e:
         print(f"ANALYSIS-ERROR: property={prop} {e}")
+        # violations found before the analysis broke down are still reported
+        if any(not o.ok for o in rep.obligations):
+            try:
+                if finish(rep, None) == 1:
+                    return 1
+            except Exception:
+                pass
         return 2
     except Exception:
         traceback.print_exc()
